@@ -73,11 +73,22 @@ class Program:
             self.impls.extend(c.get("impls", []))
             self.foreign.update(c.get("foreign_fns", []))
         self._callers = None
+        self.substituted = {}
         self._ret_const = {}
         self._ret_int = {}
 
     def fn(self, path):
-        return self.fns.get(path)
+        f = self.fns.get(path)
+        if f is None:
+            # a function of the tree the rules were written against that has been inlined into its only (former) caller:
+            # the code the rule is about now lives there
+            from . import inline
+            if inline.is_known(path):
+                present = [c for c in inline.frozen_callers(path) if c in self.fns]
+                if len(present) == 1:
+                    self.substituted[path] = present[0]
+                    return self.fns[present[0]]
+        return f
 
     def find_fns(self, pattern):
         rx = re.compile(pattern)
@@ -1127,9 +1138,16 @@ def atoms_of(fn, d, dty, lab):
             return [("is", dd[1], frozenset([name]), True, adt)]
         names = frozenset((fn.prog.variant_name(adt, v) or v) for v in lab[1])
         return [("is", dd[1], names, False, adt)]
+    # switch values are bit patterns: give signed discriminants their mathematical value (`match level { -1 => .. }`)
+    bits = {"i8": 8, "i16": 16, "i32": 32, "i64": 64, "isize": 64, "core::ffi::c_int": 32, "core::ffi::c_long": 64}.get(dty)
+
+    def sv(v):
+        if bits and isinstance(v, int) and v >= (1 << (bits - 1)):
+            return v - (1 << bits)
+        return v
     if lab[0] == "eq":
-        return [("int", d, frozenset([lab[1]]), True)]
-    return [("int", d, frozenset(lab[1]), False)]
+        return [("int", d, frozenset([sv(lab[1])]), True)]
+    return [("int", d, frozenset(sv(v) for v in lab[1]), False)]
 
 
 def bool_atoms(fn, d, truth):
